@@ -25,6 +25,8 @@ def partition(ids):
 def fg_real(hh, alt, ep, e1, e2, order=None, labels=None):
     """real fg_id_numpy on numpy arrays, rows permuted by `order`; returns the partition over original persons"""
     from _gettsim.groupings import fg_id_numpy
+    from gsv import gt
+    fg_id_numpy = gt.bound(fg_id_numpy)
     n = len(hh)
     order = list(range(n)) if order is None else list(order)
     lab = list(range(n)) if labels is None else list(labels)
